@@ -483,9 +483,51 @@ def f_scaled_huge(case, obs, f):
             and any(_scaled_k(dd, x) > 2 ** 51 for dd, x in _leaves(case['d'], obs['v'])))
 
 
+def f_scaled_window(case, obs, f):
+    """validate() refuses (RangeError) the lowest / highest grid value of a scaled type whose limit is not a grid
+    point and whose grid index exceeds 2^50: min - scale (max + scale) rounds to the value itself"""
+    if f['class'] not in ('node-import-raises', 'setparam-not-accepted') or 'RangeError' not in f['what']:
+        return False
+    for dd, x in _leaves(case['d'], obs['v']):
+        k = _scaled_k(dd, x)
+        if k <= 2 ** 50:
+            continue
+        s, val = G.dec_float(dd['scale']), G.dec_float(x[1])
+        for lim in (G.dec_float(dd['min']), G.dec_float(dd['max'])):
+            try:
+                edge = round(lim / s) * s
+            except (OverflowError, ValueError):
+                continue
+            if edge == val and edge != lim and \
+                    not G.dec_float(dd['min']) - s < val < G.dec_float(dd['max']) + s:
+                return True
+    return False
+
+
+def _regridded_text_differs(dd, x):
+    if dd['t'] != 'scaled' or x[0] != 'float' or not isinstance(x[1], list):
+        return False
+    s, val = G.dec_float(dd['scale']), G.dec_float(x[1])
+    text = '%g' % val
+    try:
+        back = round(float(text) / s) * s
+    except (OverflowError, ValueError):
+        return False
+    return '%g' % back != text
+
+
+def f_scaled_text_regrid(case, obs, f):
+    """the six digit text of a scaled value denotes a number that __call__ puts on a different grid point whose
+    text differs (grid coarser than the six digit unit just below a power of ten)"""
+    return (f['class'] in ('text-changed', 'setparam-changed')
+            and any(_regridded_text_differs(dd, x) for dd, x in _leaves(case['d'], obs['v'])))
+
+
 FINDING_CLASSIFIERS = {
     'float-negzero-text': f_negzero,
     'scaled-huge-grid': f_scaled_huge,
+    'scaled-limit-window': f_scaled_window,
+    'scaled-text-regrid': f_scaled_text_regrid,
 }
 
 
@@ -520,7 +562,9 @@ SCALES = [0.1, 1e-3, 0.5, 0.25, 1.0, 2.0, 1 / 3, 1e-5, 10.0, 0.7, 1e-300]
 
 def far_scaled(rng):
     s = rng.choice(SCALES[:9])
-    base = rng.choice([10 ** 6, 2 ** 24, 2 ** 31, 10 ** 12, 2 ** 40, 2 ** 50, -10 ** 6, -2 ** 31, -10 ** 12, -2 ** 50])
+    # limits are grid values k * s; indices stay within the proved bound 2^51 (C02_scaled_guard_easy, aligned case)
+    base = rng.choice([10 ** 6, 2 ** 24, 2 ** 31, 10 ** 12, 2 ** 40, 2 ** 50, -10 ** 6, -2 ** 31, -10 ** 12, -2 ** 50,
+                       2 ** 51 - 1001, -(2 ** 51 - 1)])
     width = rng.choice([0, 1, 10, 1000])
     a, b = base * s, (base + width) * s
     return {'t': 'scaled', 'scale': G.enc_float(s), 'min': G.enc_float(min(a, b)), 'max': G.enc_float(max(a, b))}
